@@ -61,6 +61,8 @@ pub const SESSIONS: &[(&str, &str)] = &[
     ("host_call_unscoped", "n := 10\ntotal := 100\ndouble := (n: int) -> int { total := n * 2; return total }\ndouble(3)\n(n, total)\nsame := (double: int, same: int) -> int { n := double + same; return n }\nsame(1, 2)\n(n, total)"),
     // `_` and friends are ordinary identifiers
     ("underscore_names", "_ := 100\na := 1\nb := _ + a\nb\n_x := 5\n_ := _ + _x\n(_, _x, b)\nans := 1\nit := 2\nlast := 3\n7\n(ans, it, last, _)\n__ := _\n8\n(__, _)"),
+    // names the host put into the interpreter (and `std` itself) can be re-bound like any other
+    ("rebind_host_names", "host_k + 1\nhost_k := 5\nhost_k + 1\nhost_s := 2\n(host_k, host_s)\nn := std.len([1, 2])\nstd := 7\nstd + n\n(std, host_k)"),
     ("own_name_param", "f := (f: int, g: int) -> int { return f + g }\nf(1, 2)\ng := (x: int) -> int { g := x + 1; return g }\ng(1)\ng(2)"),
 ];
 
@@ -341,10 +343,19 @@ fn exec_res(r: Result<Result<Variable, simplesl::ExecError>, String>) -> Result<
 }
 
 /// Batch route for a prefix: fresh interpreter, one parse, exec_unscoped.
+/// The interpreter both routes start from: the standard library plus two names inserted by the
+/// host through the public `Interpreter::insert`, as an embedding application would.
+fn host_interp() -> Interpreter<'static> {
+    let mut i = Interpreter::with_stdlib();
+    i.insert("host_k".into(), Variable::Int(10));
+    i.insert("host_s".into(), Variable::from("h"));
+    i
+}
+
 /// Err = the route did not complete (rejected / failed / panicked).
 fn batch(prefix: &[String]) -> Result<(String, Interpreter<'static>, Vec<String>), String> {
     let before = os::with(|o| o.stdout.len()).unwrap_or(0);
-    let mut interp = Interpreter::with_stdlib();
+    let mut interp = host_interp();
     let text = prefix.join(";\n");
     let code = match guarded(|| Code::parse(&interp, &text)) {
         Err(p) => return Err(format!("batch parse PANIC {p}")),
@@ -420,7 +431,7 @@ pub fn run_scenario(sc: &Scenario) -> RunReport {
         }
 
         // ---- the session: incremental route vs batch route
-        let mut interp = Interpreter::with_stdlib();
+        let mut interp = host_interp();
         let mut fed = 0usize;
         let mut repl_out: Vec<String> = Vec::new();
         let mut last_repl: Option<String> = None;
